@@ -1109,8 +1109,16 @@ class Converter:
                 self._fail(
                     stmt, "Expected same number of elements on lhs and rhs of assignments."
                 )
-            for p, r in zip(lhs.elts, rhs.elts):
-                assign(p, r)
+            if all(isinstance(p, ast.Name) for p in lhs.elts):
+                # Python evaluates every right-hand side before it binds a target (x, y = y, x).
+                translated = [
+                    (p, self._translate_expr(r, p.id)) for p, r in zip(lhs.elts, rhs.elts)
+                ]
+                for p, t in translated:
+                    self._bind(p.id, values.SymbolValue(t, self._source_of(p)))
+            else:
+                for p, r in zip(lhs.elts, rhs.elts):
+                    assign(p, r)
         else:
             assign(lhs, rhs)
 
